@@ -185,6 +185,7 @@ if __name__ == "__main__":
     ap.add_argument("--prop")
     ap.add_argument("--workers", type=int, default=8)
     ap.add_argument("--keep", action="store_true")
+    ap.add_argument("--json")
     a = ap.parse_args()
     ms = load_mutants()
     if a.prop:
@@ -196,5 +197,7 @@ if __name__ == "__main__":
     for r in res:
         print("%-8s %-22s %s" % (r["id"], r["status"], r.get("why", "") or "; ".join("%s[%s]" % (x["rule"], x["instance"]) for x in r.get("fired", []))))
     print("%.1fs" % (time.time() - t0))
+    if a.json:
+        json.dump(res, open(a.json, "w"), indent=1)
     if not a.keep:
         cleanup()
